@@ -10,7 +10,7 @@ import (
 	"bngverif/internal/vstat"
 )
 
-func genFor(c cellSpec) func(src, cellSpec) *tcase {
+func genFor(c cellSpec) func(src, cellSpec, *params) *tcase {
 	switch c.Kind {
 	case "dhcp", "dhcp-relay":
 		return genDHCP
@@ -37,18 +37,22 @@ func allCells() []cellSpec {
 	return out
 }
 
-// weighted draws a cell; cells whose FIRST termination already ends in a listed known finding are drawn
-// less often with a second termination behind them (the case is cut at the finding, the second never runs).
-func drawCell(rt *rapid.T, cells []cellSpec) cellSpec {
-	return cells[rapid.IntRange(0, len(cells)-1).Draw(rt, "cell")]
+// drawCase draws the common parameters first and lets them (hashed) rotate the drawn cell index: rapid's integer
+// generators favour small values, so a bare index would pile the cases onto the first cells of the list; mixed
+// with ~30 other draws the choice is close to uniform and still a pure function of the drawn data (replayable).
+func drawCase(rt *rapid.T, cells []cellSpec) *tcase {
+	var base params
+	s := rapidSrc{rt}
+	genCommon(s, &base)
+	idx := (uint64(rapid.IntRange(0, len(cells)-1).Draw(rt, "cell")) + vstat.Hash(jsonOf(base))) % uint64(len(cells))
+	c := cells[idx]
+	return genFor(c)(s, c, &base)
 }
 
 func propRandom(t *testing.T, name string, cells []cellSpec, q, th int) {
 	vstat.Checks(q, th)
 	rapid.Check(t, func(rt *rapid.T) {
-		c := drawCell(rt, cells)
-		tc := genFor(c)(rapidSrc{rt}, c)
-		check(t, rt, tc)
+		check(t, rt, drawCase(rt, cells))
 	})
 	noteCells(name)
 }
@@ -88,7 +92,7 @@ func TestPropSweep(t *testing.T) {
 		}
 		mine++
 		for r := 0; r < reps; r++ {
-			tc := genFor(c)(prng, c)
+			tc := genFor(c)(prng, c, nil)
 			check(t, t, tc)
 		}
 	}
